@@ -72,7 +72,15 @@ func (s c10Spec) Query() string {
 		}
 		return q
 	case "unwrap":
-		return "max_over_time(" + s.Sel + " | unwrap weight [" + r + "])" + grp
+		q := "max_over_time(" + s.Sel + " | unwrap weight [" + r + "])" + grp
+		if s.Outer != nil {
+			kw := "by"
+			if s.Outer.Without {
+				kw = "without"
+			}
+			q = s.Outer.VecOp + " " + kw + " (" + strings.Join(s.Outer.Labels, ", ") + ") (" + q + ")"
+		}
+		return q
 	case "binop":
 		return "sum" + grp + " (count_over_time(" + s.Sel + "[" + r + "])) " + s.BinOp + " sum" + grp + " (count_over_time(" + s.SelB + "[" + r + "]))"
 	}
@@ -161,9 +169,26 @@ func (propC10) Gen(r *Rng, run uint64, tier string) *Plan {
 			qs.Outer = o
 		}
 		if qs.Kind == "unwrap" && qs.Without {
-			// without(...) on an unwrap range keeps the unwrapped label itself in
-			// the series identity, which other engines strip; stay with by(...).
-			qs.Without = false
+			// without(...) on an unwrap range: name the unwrapped label and the line
+			// explicitly, so that whether an engine strips them by itself is immaterial.
+			has := map[string]bool{}
+			for _, l := range qs.Labels {
+				has[l] = true
+			}
+			for _, l := range []string{"weight", "msg"} {
+				if !has[l] {
+					qs.Labels = append(qs.Labels, l)
+				}
+			}
+		}
+		if qs.Kind == "unwrap" && qs.Without && r.Bool(0.5) {
+			// an outer aggregation of the same clause kind over the grouped range
+			// (without over without removes the union; by over by is C11's)
+			o := &c10Outer{VecOp: []string{"sum", "count", "max", "min"}[r.Intn(4)], Without: true}
+			for k := 1 + r.Intn(2); k > 0; k-- {
+				o.Labels = append(o.Labels, Pick(r, vocab))
+			}
+			qs.Outer = o
 		}
 	}
 	p.Query = qs.Query()
@@ -336,7 +361,13 @@ func c10Side(t *testing.T, p *Plan, spec c10Spec, sel string, pipe string, steps
 			for gk, g := range groups {
 				vec[gk] = c10Val{g.labels, map[string]float64{"sum": g.sum, "count": g.cnt, "max": g.max, "min": g.min}[spec.VecOp]}
 			}
-			if spec.Outer != nil && spec.Kind == "vec" {
+		}
+		if spec.Outer != nil && (spec.Kind == "vec" || spec.Kind == "unwrap") {
+			type grp struct {
+				labels             map[string]string
+				sum, cnt, max, min float64
+			}
+			{
 				outer := map[string]*grp{}
 				for _, k := range sortedKeys(vec) {
 					iv := vec[k]
